@@ -189,7 +189,8 @@ void Dot11ManagementFrame::edca_parameter_set(uint32_t ac_be, uint32_t ac_bk, ui
 }
 
 void Dot11ManagementFrame::request_information(const request_info_type elements) {
-    add_tagged_option(REQUEST_INFORMATION, static_cast<uint8_t>(elements.size()), &elements[0]);
+    add_tagged_option(REQUEST_INFORMATION, static_cast<uint8_t>(elements.size()),
+                      elements.empty() ? 0 : &elements[0]);
 }
 
 void Dot11ManagementFrame::fh_parameter_set(const fh_params_set& fh_params) {
